@@ -430,6 +430,31 @@ func main() {
 			cs = append(cs, srcCase{Name: fmt.Sprintf("execmode-%s-shared-opcodes-%v", mode, share), Opt: "nodyn", Class: "execmode", Src: src})
 		}
 	}
+	// code in RAM (execmode vn and hy): programs of exactly 2^k-1, 2^k and 2^k+1 lines, alone and next to
+	// RAM data, so that the RAM address width is decided at a boundary
+	for _, mode := range []string{"vn", "hy"} {
+		for _, n := range []int{2, 3, 4, 5, 7, 8, 9, 15, 16, 17} {
+			for _, data := range []int{0, 3} {
+				var sb strings.Builder
+				sb.WriteString("%section rprog .ramtext iomode:sync\n\tentry _rstart\n_rstart:\n")
+				for i := 0; i < n-2; i++ {
+					sb.WriteString("\tinc r0\n")
+				}
+				sb.WriteString("\tr2o r0, o0\n\tj _rstart\n%endsection\n")
+				cp := "%meta cpdef cpu ramcode: rprog, execmode: " + mode
+				if mode == "hy" {
+					sb.WriteString("%section prog .romtext iomode:sync\n\tentry _start\n_start:\n\tinc r1\n\tj _start\n%endsection\n")
+					cp = "%meta cpdef cpu romcode: prog, ramcode: rprog, execmode: hy"
+				}
+				if data > 0 {
+					sb.WriteString("%section rdat .ramdata\n\tvar db 0x01, 0x02, 0x03\n%endsection\n")
+					cp += ", ramdata: rdat"
+				}
+				sb.WriteString(cp + "\n%meta ioatt tout cp: cpu, index:0, type:output\n%meta ioatt tout cp: bm, index:0, type:output\n%meta bmdef global registersize:8\n")
+				cs = append(cs, srcCase{Name: fmt.Sprintf("ramlines-%s-%d-data%d", mode, n, data), Opt: "nodyn", Class: "boundary-ram", Src: sb.String()})
+			}
+		}
+	}
 	for _, k := range []int{1, 2, 3, 4, 5, 8, 9} {
 		var body []string
 		for i := 0; i < k; i++ {
